@@ -255,11 +255,33 @@ def frame(d0, d1, hot_before, hot_after, F, tag=""):
             F.append("unexpected-line: %r%s" % (l, tag))
 
 
+def _has_self_edge(d, s):
+    return any(e["a"] == s and e["b"] == s for e in d.edges if e["kind"] in ("L", "C"))
+
+
 def oracle(case):
+    """failures on a segment that carries a self-edge (circular self-link, hairpin, self-containment) are prefixed
+    `selfedge-` so that this family (DESIGN 7 #6 and relatives) keeps its own signatures"""
+    if case["mode"] == "apply_cn":
+        F = oracle_cn(case)
+        if F:
+            d = _doc(case)
+            if any(_has_self_edge(d, s) for s, cn in case["cn"].items() if cn >= 2):
+                F = ["selfedge-" + f for f in F]
+        return F
+    F = []
+    for cf in case["configs"]:
+        c1 = dict(case); c1["configs"] = [cf]
+        f1 = _oracle_multiply(c1)
+        if f1 and cf["factor"] >= 2 and _has_self_edge(_doc(case), cf["seg"]):
+            f1 = ["selfedge-" + f for f in f1]
+        F.extend(f1)
+    return F
+
+
+def _oracle_multiply(case):
     gfapy = lib.import_gfapy()
     F = []
-    if case["mode"] == "apply_cn":
-        return oracle_cn(case)
     for cf in case["configs"]:
         try:
             g = G.build(case, case.get("vlevel", 1))
